@@ -246,10 +246,14 @@ func omApply(st *omState, op omOp, keys []string) (string, string) {
 		}
 		st.retired = append(st.retired, omRetired{st.m, st.model, "receiver-of-Map"})
 		st.m, st.model = derived, nm
-	case "sortAsc", "sortDesc":
+	case "sortAsc", "sortDesc", "sortTies":
 		less := func(i, j string) bool { return i < j }
 		if op.Kind == "sortDesc" {
 			less = func(i, j string) bool { return i > j }
+		}
+		if op.Kind == "sortTies" {
+			// orders by the first letter only: keys sharing it are equivalent and must keep their relative order
+			less = func(i, j string) bool { return i[0] < j[0] }
 		}
 		st.m.Sort(less)
 		nm := st.model.clone()
@@ -452,6 +456,37 @@ func checkC19(r *Run) {
 			r.Sample(map[string]any{"random_history_prefix": histString(h[:min(12, len(h))]), "length": n})
 		}
 	}
+	// wide maps (up to 24 live keys) with a comparator that ties distinct keys: stability of Sort
+	var keys24 []string
+	for _, p := range []string{"a", "b", "c"} {
+		for i := 0; i < 8; i++ {
+			keys24 = append(keys24, fmt.Sprintf("%s%d", p, i))
+		}
+	}
+	ops24 := append(omOps(keys24, []int{0, 1}), omOp{Kind: "sortTies"}, omOp{Kind: "sortTies"}, omOp{Kind: "sortTies"})
+	nWide := r.n(200, 6000)
+	for c := 0; c < nWide; c++ {
+		rng := newRNG("C19w", r.Seed, c)
+		n := rng.Range(30, 120)
+		h := make([]omOp, n)
+		for i := range h {
+			switch {
+			case rng.Chance(0.7):
+				h[i] = omOp{Kind: "set", K: pick(rng, keys24), V: rng.Intn(2)}
+			case rng.Chance(0.3):
+				h[i] = omOp{Kind: "sortTies"}
+			default:
+				h[i] = pick(rng, ops24)
+			}
+		}
+		key, detail, _ := omRunHistory(h, keys24, true)
+		r.Eval()
+		r.Distinct(histString(h))
+		if key != "" {
+			r.Violation(key, "history: "+histString(h)+"\n"+detail, map[string]any{"history": histString(h)})
+		}
+	}
+	r.Count("wide_random_histories", nWide)
 	r.Sample(map[string]any{"exhaustive_example": "Set(a,0); Set(b,1); Remove(a); sortDesc; jsonInto"})
 	r.Count("random_histories", nRand)
 	r.Assumptions = append(r.Assumptions, "model: slice of (key,value) pairs in first-insertion order; Sort is stable; JSON decode = Set per member in document order")
